@@ -3,8 +3,11 @@
    isIncluded, anyInclude, and of the core helpers they call (BuildLabel.Includes/Parent/HasParent/Less,
    BuildTarget.HasLabel/HasAnyLabel/PrefixedLabels, Package.IsIncludedIn).  In code order.  No proofs here.
    The boolean conditions of targetsToRemove and the same-rule condition of publicDependencies are NOT
-   written by hand: they are regenerated from gc.go by gotrans into Gen/GcConds.v. *)
-From PlzV Require Import Base.Harness Gen.GcConds.
+   written by hand: they are regenerated from gc.go by gotrans into Gen/GcConds.v.
+   The packages targetsToRemove ranges over are the copy BuildGraph.PackageMap() makes of the graph's package
+   store: AddPackage / PackageMap are modelled below (add_packages, package_map, gc_view), with the two keys
+   and packageKey.String() regenerated from graph.go / build_label.go into Gen/GcPkgMap.v. *)
+From PlzV Require Import Base.Harness Gen.GcConds Gen.GcPkgMap.
 
 (* ---- labels -------------------------------------------------------------------------------- *)
 Record label := L { l_sub : str; l_pkg : str; l_name : str }.   (* BuildLabel{Subrepo, PackageName, Name} *)
@@ -305,18 +308,68 @@ Definition gc (g : graph) (a : args) : option (list label * list str) :=
   | Some m => Some (sort_by label_ltb (removed_targets g a m), sort_by str_ltb (removed_srcs g a m))
   end.
 
+(* ---- the packages of the graph: BuildGraph.AddPackage and BuildGraph.PackageMap() -------------------
+   targetsToRemove never sees the graph's package store (graph.packages, a cmap keyed by the struct
+   packageKey{Name, Subrepo}); it ranges over the COPY that PackageMap() builds, a Go map keyed by a
+   string.  Both keys are regenerated from graph.go / build_label.go (Gen/GcPkgMap.v).  A package that the
+   copy loses is a set of GC roots (its subincludes, its targets under a named //pkg/...) lost. *)
+Definition store := list pkg.                    (* graph.packages, in the order the packages were added *)
+
+Definition store_key_of (p : pkg) : str * str := GcPkgMap.store_key (p_sub p) (p_name p).
+Definition key_pair_eqb (a b : str * str) : bool := str_eqb (fst a) (fst b) && str_eqb (snd a) (snd b).
+
+(* AddPackage: graph.packages.Add(key, pkg) refuses a key that is present and AddPackage panics (None) *)
+Definition add_package (st : option store) (p : pkg) : option store :=
+  match st with
+  | None => None
+  | Some st => if existsb (fun q => key_pair_eqb (store_key_of q) (store_key_of p)) st then None
+               else Some (st ++ [p])
+  end.
+(* a history of AddPackage calls on a new graph *)
+Definition add_packages (ps : list pkg) : option store := fold_left add_package ps (Some []).
+
+(* the key PackageMap() files a package under *)
+Definition pkgmap_key_of (p : pkg) : str := GcPkgMap.pkgmap_key (p_sub p) (p_name p).
+
+(* map[string]*Package as an association list; pm_set m k v is m[k] = v *)
+Definition pmap := list (str * pkg).
+Fixpoint pm_set (m : pmap) (k : str) (v : pkg) : pmap :=
+  match m with
+  | [] => [(k, v)]
+  | (k', v') :: r => if str_eqb k' k then (k, v) :: r else (k', v') :: pm_set r k v
+  end.
+(* PackageMap(): vals = graph.packages.Values(), the store in whatever order the shards give *)
+Definition package_map (vals : list pkg) : pmap := fold_left (fun m p => pm_set m (pkgmap_key_of p) p) vals [].
+Definition pm_values (m : pmap) : list pkg := map snd m.
+
+(* the graph as gc.go gets to see it: its packages are the values of PackageMap() *)
+Definition gc_view (g : graph) : graph := G (g_targets g) (pm_values (package_map (g_pkgs g))).
+
 (* ---- correspondence cases ---- *)
 Inductive case :=
 | CGc (g : graph) (a : args)
       (removed : list label) (srcs : list str)        (* what targetsToRemove returned *)
       (pubs : list (label * list label))              (* publicDependencies of some targets *)
       (sibs : list (label * label))                   (* gcSibling of some targets *)
+      (pm : list (str * (str * str)))                 (* PackageMap(): key -> (subrepo, name) of the value, sorted by key *)
 | CBad.                                               (* the harness sent something unreadable *)
+
+(* In a case g_pkgs g is the STORE: every package the harness added with AddPackage (it keeps its own
+   list; it does not ask PackageMap()).  The model adds them again, copies them with package_map and runs
+   gc on that view; the real PackageMap() is observed on its own as well. *)
+Definition pm_entry_ltb (a b : str * (str * str)) : bool := str_ltb (fst a) (fst b).
+Definition pm_entry_eqb (a b : str * (str * str)) : bool :=
+  str_eqb (fst a) (fst b) && key_pair_eqb (snd a) (snd b).
+Definition pm_observable (m : pmap) : list (str * (str * str)) :=
+  sort_by pm_entry_ltb (map (fun e => (fst e, (p_sub (snd e), p_name (snd e)))) m).
 
 Definition check (c : case) : bool :=
   match c with
-  | CGc g a rem srcs pubs sibs =>
-      match gc g a with
+  | CGc g0 a rem srcs pubs sibs pm =>
+      let g := gc_view g0 in
+      match add_packages (g_pkgs g0) with Some st => Nat.eqb (length st) (length (g_pkgs g0)) | None => false end
+      && list_eqb pm_entry_eqb (pm_observable (package_map (g_pkgs g0))) pm
+      && match gc g a with
       | Some (r, x) => list_eqb label_eqb r rem && list_eqb str_eqb x srcs
       | None => false
       end
@@ -339,7 +392,9 @@ Definition check (c : case) : bool :=
    literal does not).  Five separator bytes that never occur in the data, from the outside in:
      ^  fields of the case        !  items of a top-level list      |  fields of a record
      ;  elements of a list field  ,  the three components of a label
-   An empty list field is the empty string. *)
+   An empty list field is the empty string.
+   Fields: targets ^ packages (the store) ^ args ^ removed ^ removed sources ^ publicDependencies
+   observations ^ gcSibling observations ^ PackageMap() observation (key|subrepo|name items). *)
 Fixpoint split_aux (c : N) (x cur : str) : list str :=
   match x with
   | [] => [rev cur]
@@ -376,6 +431,12 @@ Definition d_args (x : str) : option args :=
   | _ => None
   end.
 
+Definition d_pm_entry (x : str) : str * (str * str) :=
+  match split 124 x with
+  | [k; a; b] => (k, (a, b))
+  | _ => (s "?", (s "?", s "?"))
+  end.
+
 Definition d_pair {X} (f : str -> X) (x : str) : label * X :=
   match split 124 x with
   | [a; b] => (d_label a, f b)
@@ -384,11 +445,12 @@ Definition d_pair {X} (f : str -> X) (x : str) : label * X :=
 
 Definition dec (x : String.string) : case :=
   match split 94 (s x) with
-  | [ts; ps; a; rem; srcs; pubs; sibs] =>
+  | [ts; ps; a; rem; srcs; pubs; sibs; pm] =>
       match d_args a with
       | Some a => CGc (G (map d_target (items 33 ts)) (map d_pkg (items 33 ps))) a
                       (d_labels rem) (items 59 srcs)
                       (map (d_pair d_labels) (items 33 pubs)) (map (d_pair d_label) (items 33 sibs))
+                      (map d_pm_entry (items 33 pm))
       | None => CBad
       end
   | _ => CBad
